@@ -565,4 +565,103 @@ theorem finite_of_bounds_float32 (lo hi x : Float32) (hlo : lo.toModel.unpack.is
     (h1 : Scalar.lt x lo = false) (h2 : Scalar.lt hi x = false) : x.toModel.unpack.isFinite = true :=
   ufinite_of_bounds _ _ _ hlo hhi hx (by rw [← lt_float32]; exact h1) (by rw [← lt_float32]; exact h2)
 
+/-! ## 4. NaN-ness through `pack` / `unpack`, negation, absolute value and division -/
+
+open Float.Model.UnpackedFloat in
+theorem unpack_isNaN (spec : Format) (b : BitVec spec.numBits) :
+    (UnpackedFloat.unpack spec b).isNaN = (decide (unpackExponent b = -1#_) && !decide (unpackMantissa b = 0#_)) := by
+  unfold UnpackedFloat.unpack
+  simp only []
+  split
+  · split <;> simp_all [UnpackedFloat.isNaN]
+  · split
+    · split <;> simp_all [UnpackedFloat.isNaN]
+    · simp_all [UnpackedFloat.isNaN]
+
+open Float.Model.UnpackedFloat in
+/-- packing and unpacking again keeps NaN-ness (an overflowing finite value becomes `±∞`, never NaN). -/
+theorem unpack_pack_isNaN (spec : Format) (u : UF) :
+    (UnpackedFloat.unpack spec (UnpackedFloat.pack spec u)).isNaN = u.isNaN := by
+  rw [unpack_isNaN]
+  fun_cases UnpackedFloat.pack with
+  | case1 =>
+    simp [packedNaN, UnpackedFloat.isNaN]
+    intro e
+    have h1 := congrArg BitVec.toNat e
+    have hm := spec.hm
+    have : 2 ^ (spec.mantissaBitsWithoutImplicit - 1) < 2 ^ spec.mantissaBitsWithoutImplicit :=
+      Nat.pow_lt_pow_right (by decide) (by omega)
+    have hp : 0 < 2 ^ (spec.mantissaBitsWithoutImplicit - 1) := Nat.pow_pos (by decide)
+    simp [BitVec.toNat_shiftLeft, Nat.shiftLeft_eq, Nat.mod_eq_of_lt this] at h1
+  | case2 s => simp [packedInfinity, UnpackedFloat.isNaN]
+  | case3 s => simp [packedZero, UnpackedFloat.isNaN]
+  | case4 s m e hm biasedExponent h => simp [packedInfinity, UnpackedFloat.isNaN]
+  | case5 s m e hm actualMantissaBits biasedExponent h₁ h₂ =>
+    simp [UnpackedFloat.isNaN]
+    intro e
+    exfalso
+    have h1 := congrArg BitVec.toNat e
+    simp [BitVec.neg_one_eq_allOnes] at h1
+    rw [Nat.mod_eq_of_lt (by omega)] at h1
+    omega
+  | case6 s m e hm actualMantissaBits biasedExponent h₁ h₂ =>
+    simp [UnpackedFloat.isNaN]
+    intro e
+    have := spec.he
+    omega
+
+theorem pack_isNaN_float (u : UF) : Scalar.isNaN (Float.ofModel (Float.Model.pack u)) = u.isNaN :=
+  unpack_pack_isNaN Format.binary64 u
+
+theorem pack_isNaN_float32 (u : UF) : Scalar.isNaN (Float32.ofModel (Float32.Model.pack u)) = u.isNaN :=
+  unpack_pack_isNaN Format.binary32 u
+
+theorem uneg_isNaN (u : UF) : u.neg.isNaN = u.isNaN := by cases u <;> rfl
+theorem uabs_isNaN (u : UF) : u.abs.isNaN = u.isNaN := by cases u <;> rfl
+
+/-- negation and `abs` keep NaN-ness. -/
+theorem isNaN_neg_float (x : Float) : Scalar.isNaN (-x) = Scalar.isNaN x := by
+  rw [neg_float, pack_isNaN_float, uneg_isNaN]; rfl
+theorem isNaN_neg_float32 (x : Float32) : Scalar.isNaN (-x) = Scalar.isNaN x := by
+  rw [neg_float32, pack_isNaN_float32, uneg_isNaN]; rfl
+theorem isNaN_abs_float (x : Float) : Scalar.isNaN (Scalar.abs x) = Scalar.isNaN x := by
+  rw [abs_float, pack_isNaN_float, uabs_isNaN]; rfl
+theorem isNaN_abs_float32 (x : Float32) : Scalar.isNaN (Scalar.abs x) = Scalar.isNaN x := by
+  rw [abs_float32, pack_isNaN_float32, uabs_isNaN]; rfl
+
+open Float.Model.UnpackedFloat in
+/-- rounding a finite value gives a zero or a finite value — never a NaN (no statement about *which* value). -/
+theorem roundWithAccuracy_not_nan (spec : Format) (s : Sign) (m : Nat) (e : Int) (acc : Accuracy) :
+    (roundWithAccuracy spec s m e acc).isNaN = false := by
+  unfold roundWithAccuracy
+  simp only []
+  split <;> rfl
+
+/-- finite and not zero. -/
+def isFiniteNonzero : UF → Bool
+  | .finite .. => true
+  | _ => false
+
+/-- a finite non-zero numerator over a number is a number (`c/±0 = ±∞`, `c/±∞ = ±0`). -/
+theorem udiv_not_nan (spec : Format) (c y : UF) (hc : isFiniteNonzero c = true) (hy : y.isNaN = false) :
+    (UnpackedFloat.div spec c y).isNaN = false := by
+  rcases c with s|_|s|⟨s,m,e,hm⟩
+  · cases hc
+  · cases hc
+  · cases hc
+  · rcases y with s'|_|s'|⟨s',m',e',hm'⟩
+    · rfl
+    · cases hy
+    · rfl
+    · simp only [UnpackedFloat.div]
+      exact roundWithAccuracy_not_nan _ _ _ _ _
+
+theorem isNaN_div_float (c y : Float) (hc : isFiniteNonzero c.toModel.unpack = true) (hy : Scalar.isNaN y = false) :
+    Scalar.isNaN (c / y) = false := by
+  rw [div_float, pack_isNaN_float]; exact udiv_not_nan _ _ _ hc hy
+
+theorem isNaN_div_float32 (c y : Float32) (hc : isFiniteNonzero c.toModel.unpack = true) (hy : Scalar.isNaN y = false) :
+    Scalar.isNaN (c / y) = false := by
+  rw [div_float32, pack_isNaN_float32]; exact udiv_not_nan _ _ _ hc hy
+
 end Rosu.FM
